@@ -45,7 +45,7 @@ impl<K: ExpiredKey<E>, E: Expiration, V: Copy> KeyExpTree<K, E, V> {
     fn create_ordered_list(&mut self, time: E) -> Vec<V> {
         let height = self.height();
         let mut stack = Vec::with_capacity(height);
-        let mut list = Vec::with_capacity(8 << height);
+        let mut list = Vec::with_capacity(self.store.buffer.len() - self.store.unused.len() - 1);
 
         if self.root == EMPTY_REF {
             return list;
